@@ -41,6 +41,60 @@ func runHistory(v asmVariant, capacity int, ops []asmOp) (*asm.Emitter, *asmMode
 	return e, m, ""
 }
 
+// runHistoryWithMidFinalize is runHistory with one successful Finalize inserted after the first k
+// calls: references added after a Finalize must still be resolved by the next one, and a Finalize
+// in the middle must not disturb later emission. Returns skipped=true when the model says the
+// inserted Finalize would fail (the emitter's state after a failed Finalize depends on map order).
+func runHistoryWithMidFinalize(v asmVariant, capacity int, ops []asmOp, k int) (e *asm.Emitter, m *asmModel, diff string, skipped bool) {
+	e = newRealEmitter(v, capacity)
+	m = newModelFor(v, capacity)
+	step := func(i int, op asmOp) string {
+		before := observe(e, asmLabelNames)
+		refused := op.model(m)
+		pn := applyReal(e, op)
+		after := observe(e, asmLabelNames)
+		if refused != (pn != nil) {
+			return fmt.Sprintf("call #%d %s: model says refused=%v, emitter panicked=%v (%v)", i, op.name, refused, pn != nil, pn)
+		}
+		if refused && !after.equal(before) {
+			return fmt.Sprintf("call #%d %s was refused (%v) but changed the emitter", i, op.name, pn)
+		}
+		if d := after.matchesModel(m); d != "" {
+			return fmt.Sprintf("after call #%d %s: %s", i, op.name, d)
+		}
+		return ""
+	}
+	for i, op := range ops[:k] {
+		if d := step(i, op); d != "" {
+			return e, m, d, false
+		}
+	}
+	f := m.finalize()
+	if !f.ok {
+		return e, m, "", true
+	}
+	var err error
+	var pn interface{}
+	func() {
+		defer func() { pn = recover() }()
+		err = e.Finalize()
+	}()
+	if pn != nil || err != nil {
+		return e, m, fmt.Sprintf("Finalize after call #%d: err=%v panic=%v, model expects success", k-1, err, pn), false
+	}
+	m.bytes = f.patched
+	m.refs = nil
+	if d := observe(e, asmLabelNames).matchesModel(m); d != "" {
+		return e, m, fmt.Sprintf("after the Finalize following call #%d: %s", k-1, d), false
+	}
+	for i, op := range ops[k:] {
+		if d := step(k+i, op); d != "" {
+			return e, m, "(after a Finalize following call #" + fmt.Sprint(k-1) + ") " + d, false
+		}
+	}
+	return e, m, "", false
+}
+
 // errNamesLegitimately: does the Finalize error text name something that really is wrong?
 func errNamesLegitimately(err error, f asmFinal) bool {
 	t := err.Error()
@@ -305,7 +359,24 @@ func runC06(r *report.Run) {
 		if d != "" {
 			return "unexplained:finalize", fmt.Sprintf("%+v %v: %s", v, historyNames(al, idx), d), 1, nil
 		}
-		return "", "", 1, nil
+		n := 1
+		if !v.Listing {
+			// the same history with a (successful) Finalize inserted after each proper prefix
+			for k := 1; k < len(ops); k++ {
+				e2, m2, d2, skipped := runHistoryWithMidFinalize(v, 256, ops, k)
+				if skipped {
+					continue
+				}
+				n++
+				if d2 == "" {
+					d2 = checkFinalize(e2, m2)
+				}
+				if d2 != "" {
+					return "unexplained:finalize-mid-history", fmt.Sprintf("%+v %v with Finalize after call #%d: %s", v, historyNames(al, idx), k-1, d2), n, nil
+				}
+			}
+		}
+		return "", "", n, nil
 	}, r, 256)
 	// distance sweep
 	var dist []c06Dist
